@@ -125,7 +125,116 @@ def h_classify(loc: str) -> bool:
     return True
 
 
+# ---------------------------------------------------------------- reach: every reference mechanism is confined
+# A temporary tree <tmp>/sand/{main schemas, in.xsd, sub/in2.xsd}, <tmp>/outside/x.xsd, <tmp>/sandbox2/x.xsd (a sibling
+# directory sharing the sandbox name as prefix).  The outside schemas declare an element that must never appear in the
+# built schema or decide a verdict when allow='sandbox' (or 'none'); the inside ones must load.
+MECHS = ["include", "import", "redefine", "override", "locations-arg", "instance-hint"]
+SPELL = ["in.xsd", "sub/in2.xsd", "../outside/x.xsd", "ABS/outside/x.xsd", "file://ABS/outside/x.xsd", "sub/../../outside/x.xsd",
+         "../sand2/x.xsd", "ABS/sand/../outside/x.xsd", "file://ABS/sand/%2e%2e/outside/x.xsd", "ABS/sand/in.xsd", "./sub/../in.xsd"]
+INSIDE = {0, 1, 9, 10}
+_TREE = {}
+
+
+def _tree():
+    if "root" not in _TREE:
+        import atexit
+        import os
+        import shutil
+        import tempfile
+        root = os.path.realpath(tempfile.mkdtemp(prefix="c12reach"))
+        atexit.register(shutil.rmtree, root, True)
+        for d in ("sand/sub", "outside", "sand2"):
+            os.makedirs(os.path.join(root, d))
+        _TREE["root"] = root
+    return _TREE["root"]
+
+
+def _schema_text(tns, body):
+    return ('<xs:schema xmlns:xs="http://www.w3.org/2001/XMLSchema"%s elementFormDefault="qualified">%s</xs:schema>'
+            % (' targetNamespace="%s" xmlns:t="%s"' % (tns, tns) if tns else '', body))
+
+
+def _write(path, text):
+    with open(path, "w") as f:
+        f.write(text)
+
+
+def pre_reach(fn, m, sp):
+    return 0 <= m < len(MECHS) and 0 <= sp < len(SPELL)
+
+
+def h_reach(m: int, sp: int) -> bool:
+    import os
+    import warnings
+    import xmlschema
+    from xmlschema.exceptions import XMLSchemaException
+    from engine.sym import pick
+    mech = MECHS[pick(m, len(MECHS))]
+    si = pick(sp, len(SPELL))
+    from engine.sym import real_io
+    with real_io():
+        return _reach_concrete(mech, si)
+
+
+def _reach_concrete(mech, si):
+    import os
+    import xmlschema
+    from xmlschema.exceptions import XMLSchemaException
+    root = _tree()
+    loc = SPELL[si].replace("ABS", root)
+    inside = si in INSIDE
+    foreign = mech in ("import", "locations-arg", "instance-hint")      # the referenced schema has its own namespace
+    ref_tns = "urn:o" if foreign else "urn:m"
+    marker = '<xs:element name="marker" type="xs:int"/>'
+    ref_body = marker
+    if mech == "redefine":
+        ref_body += '<xs:simpleType name="st"><xs:restriction base="xs:string"/></xs:simpleType>'
+    for rel in ("sand/in.xsd", "sand/sub/in2.xsd", "outside/x.xsd", "sand2/x.xsd"):
+        _write(os.path.join(root, rel), _schema_text(ref_tns, ref_body))
+    if mech == "include":
+        body = '<xs:include schemaLocation="%s"/>' % loc
+    elif mech == "import":
+        body = '<xs:import namespace="urn:o" schemaLocation="%s"/>' % loc
+    elif mech == "redefine":
+        body = '<xs:redefine schemaLocation="%s"/>' % loc
+    elif mech == "override":
+        body = '<xs:override schemaLocation="%s"/>' % loc
+    else:
+        body = '<xs:import namespace="urn:o"/>' if mech == "locations-arg" else ''
+    body += '<xs:element name="doc"><xs:complexType><xs:sequence><xs:any namespace="##other" processContents="lax" minOccurs="0"/></xs:sequence></xs:complexType></xs:element>'
+    main = os.path.join(root, "sand", "main.xsd")
+    _write(main, _schema_text("urn:m", body))
+    cls = xmlschema.XMLSchema11 if mech == "override" else xmlschema.XMLSchema10
+    kwargs = {"allow": "sandbox"}
+    if mech == "locations-arg":
+        kwargs["locations"] = {"urn:o": loc}
+    # probe instance: <o:marker> with a non-integer value is invalid exactly when the referenced schema was loaded
+    probe = '<doc xmlns="urn:m"><o:marker xmlns:o="urn:o"%s>x</o:marker></doc>'
+    hint = ' xmlns:xsi="http://www.w3.org/2001/XMLSchema-instance" xsi:schemaLocation="urn:o %s"' % loc if mech == "instance-hint" else ''
+    if True:
+        try:
+            schema = cls(main, **kwargs)
+            ns = ref_tns
+            loaded = ('{%s}marker' % ns) in schema.maps.elements
+            if foreign:
+                inst = os.path.join(root, "sand", "inst.xml")
+                _write(inst, probe % hint)
+                try:
+                    errors = list(schema.iter_errors(inst, use_location_hints=(mech == "instance-hint")))
+                except XMLSchemaException:
+                    errors = None          # refused: acceptable for a denied location
+                loaded = ('{%s}marker' % ns) in schema.maps.elements
+                if errors is not None and not inside and errors:
+                    return False           # the outside schema decided a verdict
+        except XMLSchemaException:
+            return not inside              # a blocked reference may be reported as an error; an inside one must load
+    return loaded == inside
+
+
 def explain(fn, args):
+    if fn == "h_reach":
+        return "allow='sandbox', %s with location %r (sandbox = directory of the main schema)" % (MECHS[args["m"]], SPELL[args["sp"]])
     if fn == "h_sandbox_segs":
         args = {"loc": '/'.join(SEGS[args["g%d" % k]] for k in range(len(args)))}
         fn = "h_sandbox_loc"
@@ -183,6 +292,9 @@ def obligations(tier, seed):
                             "config": {"base": base, "allow": "sandbox", "prefix": prefix},
                             "timeout": to, "twin_timeout": 30,
                             "bound": "location = %r + %d segments from %r joined by '/' (finite choice)" % (prefix, k, SEGS)})
+    out.append({"name": "reach", "fn": "h_reach", "pre": "pre_reach", "args": [["m", "int"], ["sp", "int"]], "config": {},
+                "timeout": 600, "twin_timeout": 60,
+                "bound": "mechanisms %r x location spellings %r, real files in a temporary tree (finite choice; construction outside the tracer)" % (MECHS, SPELL)})
     for allow in ("none", "local", "remote"):
         for prefix, alpha in (("", "f:/a"), ("", "h:/ "), ("fil", "e:/a"), ("htt", "p:/x")):
             out.append({"name": "classify/%s/%s[%s]" % (allow, prefix, alpha), "fn": "h_classify", "pre": "pre_loc", "args": [["loc", "str"]],
